@@ -676,7 +676,7 @@ def compile_all(jobs):
 
 def run(ctx):
     q = ctx.quick
-    per = 22 if q else 140
+    per = 22 if q else 90
     if os.environ.get("C37_PER"):  # development knob (smaller corpora on a busy machine); not part of the contract
         per = int(os.environ["C37_PER"])
     maxg = 8
